@@ -2808,13 +2808,21 @@ impl<I: SignedInteger> FromBitStreamUsing for Residuals<I> {
             let partition_order = reader.read::<4, u32>()?;
             let partition_count = 1 << partition_order;
 
+            // the block must divide evenly into its partitions
+            // and the first partition must have room left
+            // for residuals after the predictor's warm-up samples
+            let partition_len = match (block_size / partition_count, block_size % partition_count) {
+                (len, 0) if len > predictor_order => len,
+                _ => return Err(Error::InvalidPartitionOrder),
+            };
+
             (0..partition_count)
                 .map(|p| {
-                    reader.parse_using(
-                        (block_size / partition_count)
-                            .checked_sub(if p == 0 { predictor_order } else { 0 })
-                            .ok_or(Error::InvalidPartitionOrder)?,
-                    )
+                    reader.parse_using(if p == 0 {
+                        partition_len - predictor_order
+                    } else {
+                        partition_len
+                    })
                 })
                 .collect()
         }
